@@ -33,8 +33,9 @@ def pygsti_label_from_statement(gate):
             else:
                 args.append(param)
         else:
-            # quantum argument: a qubit
-            args.append(param.alias_index)
+            # quantum argument: a qubit, by its index in the fundamental
+            # register (following map aliases and let-valued indices)
+            args.append(param.resolve_qubit()[1])
     return Label(args)
 
 
